@@ -40,8 +40,7 @@ def sweep_file(path: str) -> dict:
 
         tb = traceback.extract_tb(exc.__traceback__)
         where = f"{tb[-1].name}:{tb[-1].lineno}" if tb else "?"
-        cause = "init-overload" if isinstance(exc, TypeError) and "handle_function" in where and "subscriptable" in str(exc) else "none"
-        viol("total", cause, f"visit raised {type(exc).__name__}: {exc} (in {where})", exc=type(exc).__name__)
+        viol("total", "none", f"visit raised {type(exc).__name__}: {exc} (in {where})", exc=type(exc).__name__)
         return out
     out["events"] = len(rec.ev)
     # the recorded trace in the vocabulary of spec/EventProtocol.tla: [e, o, p, c]
